@@ -512,7 +512,7 @@ func runJob(j job, bases []baseDoc, muts []docmodel.Mutation) result {
 				res.Panics = append(res.Panics, fmt.Sprintf("%q: %s at %s", s, r.Err, r.Frame))
 				res.Frame = r.Frame
 			}
-			if n == 0 {
+			if n <= 0 {
 				return
 			}
 			for _, a := range byteAlpha {
@@ -655,8 +655,30 @@ func (t *tailBuf) Write(p []byte) (int, error) {
 	return len(p), nil
 }
 
+// aliasChain: a document whose `where` value is a chain of anchors, each holding two aliases of the
+// one before.
+func aliasChain(where string, levels int) string {
+	var sb strings.Builder
+	sb.WriteString("openapi: 3.0.3\ninfo: {title: t, version: '1'}\npaths:\n  /a:\n    get:\n      operationId: a\n      responses:\n        '200':\n          description: ok\n          content:\n            application/json:\n              schema:\n                type: object\n")
+	ind := "                "
+	switch where {
+	case "enum":
+		sb.WriteString(ind + "enum:\n" + ind + "  - &a0 [x, x]\n")
+		for i := 1; i <= levels; i++ {
+			fmt.Fprintf(&sb, "%s  - &a%d [*a%d, *a%d]\n", ind, i, i-1, i-1)
+		}
+	default:
+		sb.WriteString(ind + where + ":\n" + ind + "  a0: &a0 [x, x]\n")
+		for i := 1; i <= levels; i++ {
+			fmt.Fprintf(&sb, "%s  a%d: &a%d [*a%d, *a%d]\n", ind, i, i, i-1, i-1)
+		}
+	}
+	return sb.String()
+}
+
 func spawn(tier string) *proc {
-	cmd := exec.Command(os.Args[0], "--worker")
+	// 12 GiB of address space per worker: far above what any document of the check needs
+	cmd := exec.Command("/bin/sh", "-c", "ulimit -v 12582912; exec \"$0\" --worker", os.Args[0])
 	cmd.Env = append(os.Environ(), "VERIF_TIER="+tier)
 	in, _ := cmd.StdinPipe()
 	out, _ := cmd.StdoutPipe()
@@ -753,6 +775,17 @@ func main() {
 					jobs = append(jobs, job{Kind: "leaf", Tmpl: ti, PreIx: []int{a, b}, Len: n})
 				}
 				jobs = append(jobs, job{Kind: "leaf", Tmpl: ti, PreIx: []int{a}, Len: 1})
+			}
+		}
+	}
+	// YAML documents in which every anchored value holds two aliases of the previous one: n levels
+	// denote 2^n scalars.  Wherever a value is copied out of the node tree (examples, defaults, enum
+	// members, extensions are kept as raw JSON) the copy has to be bounded; workers run under a
+	// virtual-memory limit, so an unbounded one ends as a crash of this job, not of the sandbox.
+	if r.Replay == "" {
+		for _, where := range []string{"example", "default", "enum", "x-ogen-extra"} {
+			for _, levels := range []int{8, 27, 40} {
+				jobs = append(jobs, job{Kind: "bytes", Pre: aliasChain(where, levels), Len: 0})
 			}
 		}
 	}
